@@ -437,11 +437,10 @@ func c04RunHistory(t *mon.T, api string, cfg lab.Cfg, a c04Alpha, hist []string,
 					t.Cover("finalize")
 				}
 			} else if state == stReadOnly {
-				// Finalize after FinalizeReadOnly: the property leaves open whether this (erroring) call also
-				// closes the store. Decide by observation, then hold the store to the branch it took.
-				if _, herr := st.Has(a.blocks["B"].Cid); herr != nil || err == nil {
-					state = stClosed
-				}
+				// Finalize after FinalizeReadOnly: whatever it returns, the statement says that after
+				// Finalize every write and every non-identity lookup fails.
+				state = stClosed
+				t.Cover("finalize-after-finalize-readonly")
 			}
 		case op == "R":
 			err := st.FinalizeReadOnly()
@@ -585,6 +584,6 @@ func init() {
 		Assumptions: []string{"executable model lab.Model implements the documented admission rules; lookups are compared against the admissible set, listings as multisets", "identity lookups after close and Roots() after close are not judged; GetSize of an absent identity CID under StoreIdentityCIDs may answer the implied size or not-found"},
 		Gen:         genC04,
 		Run:         runC04,
-		MinCover:    map[string]int{"histories": 5000, "put:stored": 1000, "put:skipped": 1000, "put:rejected": 100, "putmany:rejected-midway": 10, "finalize": 100, "finalize-readonly": 50, "discard": 50, "close": 20, "post-terminal-sweep": 100, "api:blockstore": 10, "api:storage": 10},
+		MinCover:    map[string]int{"histories": 5000, "put:stored": 1000, "put:skipped": 1000, "put:rejected": 100, "putmany:rejected-midway": 10, "finalize": 100, "finalize-readonly": 50, "discard": 50, "close": 20, "post-terminal-sweep": 100, "finalize-after-finalize-readonly": 20, "api:blockstore": 10, "api:storage": 10},
 	})
 }
